@@ -301,3 +301,68 @@ def gen(seed, n, profiles=None, first_id=1):
         p = dict(PROFILES[name], name=name)
         res.append(G(rng, first_id + i, p).scenario())
     return res
+
+
+# ----------------------------------------------------------------------------------------------------------
+# static cases (Part B, second half): f(fargs) { callee(permutation / duplication of f's arguments, immediates) }
+# ----------------------------------------------------------------------------------------------------------
+STATIC_TARGETS = [
+    ("x86-sysv", ["cdecl", "stdcall", "fastcall"], ["i8", "u8", "i16", "u16", "i32", "u32", "i64", "f32", "f64"], 4),
+    ("x86-win", ["cdecl", "stdcall", "fastcall"], ["i8", "u16", "i32", "u32", "i64", "f32", "f64"], 4),
+    ("x64-win", ["cdecl"], ["i8", "u16", "i32", "u32", "i64", "u64", "f32", "f64"], 8),
+    ("a64-aapcs", ["cdecl"], ["i32", "u32", "i64", "u64", "f32", "f64", "f32x4"], 8),
+]
+
+
+def gen_static(seed, n, first_id=1):
+    rng = random.Random(seed * 7919 + 13)
+    res = []
+    for i in range(n):
+        env, convs, types, regsize = STATIC_TARGETS[i % len(STATIC_TARGETS)]
+        theme = rng.random()
+        nc = rng.choice([0, 1, 2, 3, 4, 5, 6, 8, 9, 10, 12]) if theme < 0.8 else rng.choice([9, 10, 12, 14])
+        if theme < 0.15:
+            pool = [t for t in types if CLS[t] == "int"]
+        elif theme < 0.3:
+            pool = [t for t in types if CLS[t] != "int"] or types
+        else:
+            pool = types
+        cargs = [rng.choice(pool) for _ in range(nc)]
+        fargs, mp, imms = [], [], []
+        for t in cargs:
+            same = [k + 1 for k, ft in enumerate(fargs) if ft == t]
+            r = rng.random()
+            if CLS[t] == "int" and SIZE[t] <= regsize and r < 0.2:
+                mp.append(0)
+                imms.append(101 + len(imms))
+            elif same and r < 0.55:
+                mp.append(rng.choice(same))              # the same argument of f again
+            elif len(fargs) < 14:
+                fargs.append(t)
+                mp.append(len(fargs))
+            elif same:
+                mp.append(rng.choice(same))
+            else:
+                mp.append(0 if CLS[t] == "int" and SIZE[t] <= regsize else 1)
+                if mp[-1] == 0:
+                    imms.append(101 + len(imms))
+                else:
+                    fargs[0] = t if len(fargs) else t
+                    if not fargs:
+                        fargs.append(t)
+        # arguments of f that are not passed on, in random positions: the order in which f receives them is a permutation
+        for _ in range(rng.choice([0, 0, 1, 2])):
+            if len(fargs) < 14:
+                fargs.append(rng.choice(types))
+        perm = list(range(len(fargs)))
+        rng.shuffle(perm)                               # new position p holds old argument perm[p]
+        inv = {old: new for new, old in enumerate(perm)}
+        fargs2 = [fargs[perm[p]] for p in range(len(fargs))]
+        mp2 = [0 if x == 0 else inv[x - 1] + 1 for x in mp]
+        # type consistency after the fix-ups above
+        ok = all(x == 0 or fargs2[x - 1] == cargs[j] for j, x in enumerate(mp2))
+        if not ok:
+            continue
+        res.append({"id": first_id + len(res), "env": env, "fconv": rng.choice(convs), "cconv": rng.choice(convs), "fargs": fargs2, "cargs": cargs,
+                    "map": mp2, "imms": imms, "fp": rng.randrange(2)})
+    return res
